@@ -11,8 +11,10 @@ instance of a run this module
 * compares that gate list (canonical form of `compiler_common.canon_gates`), the number of qubits and the
   qubit of the return name with the oracle circuit the algorithm object embeds.
 
-`covered` = in the class and the model's compilation *is* the oracle of the instance; then the proved
-distribution is a theorem about exactly the gate list of this instance (the algorithm's gate list around the
+`covered` = in the class of the `…_fragment` theorems (`inXorFragment`) or of the `…_general` theorems
+(`inGeneralClean` + their side conditions, evaluated by the driver on the model's output) and the model's
+compilation *is* the oracle of the instance; then the proved distribution is a theorem about exactly the gate
+list of this instance (the algorithm's gate list around the
 oracle is compared separately by `c15.gates` / `c16.gates`)."""
 from __future__ import annotations
 
@@ -61,42 +63,56 @@ def request(qf, log):
     return req
 
 
-def verdict(rep, oracle_gates, num_qubits, ret):
-    """(status, detail): status in 'outside' | 'covered' | 'mismatch'"""
+def verdict(rep, oracle_gates, num_qubits, ret_qubits, kind="xor"):
+    """(status, detail).  `kind` = "xor" (Grover, Deutsch-Jozsa, Bernstein-Vazirani: the one-bit xor-oracle theorems)
+    or "fun" (Simon: `C16_end_to_end_simon_general` for any number of return bits, or the one-bit theorems).
+    status: 'outside' | 'covered-fragment' (class of the `…_fragment` theorems) | 'covered-general' (only the
+    `…_general` theorems apply, side conditions evaluated on the model's output) | 'mismatch'"""
     if rep is None or "driver_error" in rep:
         return "mismatch", dict(error=(rep or {}).get("driver_error", "no reply"))
-    if not rep.get("in_xor_fragment"):
+    if not (rep.get("in_xor_fragment") or rep.get("in_general_clean")):
         return "outside", None
     if "error" in rep:
         return "mismatch", dict(error=rep["error"])
     if "gates" not in rep:
         return "outside", None  # no choices were sent: membership only
     mg, cg = canon_gates(rep["gates"]), canon_gates(oracle_gates)
-    if mg != cg or rep.get("num_qubits") != num_qubits or rep.get("ret") != ret or rep.get("choices_left"):
-        return "mismatch", dict(model=dict(gates=mg, num_qubits=rep.get("num_qubits"), ret=rep.get("ret"),
+    if mg != cg or rep.get("num_qubits") != num_qubits or rep.get("ret_qubits") != list(ret_qubits) \
+            or rep.get("choices_left"):
+        return "mismatch", dict(model=dict(gates=mg, num_qubits=rep.get("num_qubits"), ret_qubits=rep.get("ret_qubits"),
                                            choices_left=rep.get("choices_left")),
-                                code=dict(gates=cg, num_qubits=num_qubits, ret=ret))
-    return "covered", None
+                                code=dict(gates=cg, num_qubits=num_qubits, ret_qubits=list(ret_qubits)))
+    if rep.get("in_xor_fragment"):
+        return "covered-fragment", None
+    if rep.get("xor_general") or (kind == "fun" and rep.get("fun_general")):
+        return "covered-general", None
+    return "outside", None
 
 
 class Tally:
     def __init__(self):
         self.total = 0
-        self.covered = 0
+        self.covered = 0           # by any end-to-end theorem
+        self.covered_fragment = 0  # by the `…_fragment` theorems (the count before the general class)
         self.no_form = 0
         self.by = {}
 
     def add(self, status, key=None):
         self.total += 1
-        if status == "covered":
+        cov = status in ("covered-fragment", "covered-general")
+        if cov:
             self.covered += 1
+        if status == "covered-fragment":
+            self.covered_fragment += 1
         if status == "no-form":
             self.no_form += 1
         if key is not None:
-            t = self.by.setdefault(key, [0, 0])
-            t[1] += 1
-            if status == "covered":
+            t = self.by.setdefault(key, [0, 0, 0])
+            t[2] += 1
+            if cov:
+                t[1] += 1
+            if status == "covered-fragment":
                 t[0] += 1
 
     def by_text(self):
-        return ", ".join(f"{k}: {c}/{n}" for k, (c, n) in sorted(self.by.items()))
+        return ", ".join(f"{k}: {f}->{c}/{n}" for k, (f, c, n) in sorted(self.by.items()))
